@@ -299,6 +299,9 @@ func (e *grEnv) pureCall(v *ast.CallExpr, args []string, tys []grTy) (string, gr
 			return "(zindex " + args[0] + " " + args[1] + ")", tInt, true
 		case "bytes.Trim":
 			return "(ztrim " + args[0] + " " + args[1] + ")", tBytes, true
+		case "charset.FromBOM":
+			// the other package's table walk, read as Model/Text.from_bom over the regenerated BOM table (Gen/Tables.boms)
+			return "(from_bom boms " + args[0] + ")", tBytes, true
 		}
 	}
 	return "", tUnk, false
@@ -322,6 +325,12 @@ func (e *grEnv) binop(op token.Token, a string, ta grTy, c string, tc grTy) (str
 	case token.LOR:
 		return "(" + a + " || " + c + ")", tBool
 	case token.EQL, token.NEQ, token.LSS, token.LEQ, token.GTR, token.GEQ:
+		if ta == tBytes && tc == tBytes && (op == token.EQL || op == token.NEQ) { // string comparison
+			if op == token.EQL {
+				return "(beq " + a + " " + c + ")", tBool
+			}
+			return "(negb (beq " + a + " " + c + "))", tBool
+		}
 		if ta == tBytes || tc == tBytes || ta == tBool || tc == tBool {
 			grf("comparison of non-integers")
 		}
@@ -504,6 +513,23 @@ func (e *grEnv) callOf(name string, args []string, tys []grTy) (string, []grTy) 
 		}
 		e.calls[name] = true
 		return "src_" + name + " " + strings.Join(args, " "), fn.rets
+	}
+	// a package-level detector built by a translated combinator from literal signatures: phpPageF = ciPrefix(lit..)
+	if ce, ok := grCombVars[name]; ok {
+		if id, ok := ce.Fun.(*ast.Ident); ok {
+			if fn, ok := e.fns[id.Name]; ok && len(fn.ptys) == len(args)+1 && fn.ptys[0] == tBytesList {
+				var ls []string
+				for _, a := range ce.Args {
+					b, ok := byteSliceLit(a)
+					if !ok {
+						grf("%s is not built from literals", name)
+					}
+					ls = append(ls, glBytes(b))
+				}
+				e.calls[id.Name] = true
+				return "src_" + id.Name + " [" + strings.Join(ls, "; ") + "] " + strings.Join(args, " "), fn.rets
+			}
+		}
 	}
 	if _, ok := e.golite[name]; ok && len(args) == 2 && tys[0] == tBytes {
 		e.calls["golite:"+name] = true
@@ -1310,12 +1336,14 @@ func (e *grEnv) compPure(stmts []ast.Stmt, k func() string) string {
 
 // ---- functions -----------------------------------------------------------------------------------------------
 
+var grCombVars = map[string]*ast.CallExpr{}
+
 var grWanted = []string{
 	"matchOleClsid", "Doc", "Xls", "Ppt", "Pub", "Msg", "Msi",
 	"zipContains", "Docx", "Xlsx", "Pptx", "Jar", "APK", "CRX",
 	"vintWidth", "isFileTypeNamePresent", "isMatroskaFileTypeMatched", "Mkv", "WebM",
 	"tarParseOctal", "tarChksum", "Tar",
-	"isWS", "trimLWS", "trimRWS", "firstLine", "ciCheck", "ciPrefix", "markupCheck", "markup", "xmlCheck", "xml", "shebangCheck", "shebang",
+	"Text", "Svg", "Php", "isWS", "trimLWS", "trimRWS", "firstLine", "ciCheck", "ciPrefix", "markupCheck", "markup", "xmlCheck", "xml", "shebangCheck", "shebang",
 }
 
 // a combinator `func f(outer..) Detector { return func(raw []byte, limit uint32) bool { BODY } }` is read as the
@@ -1386,6 +1414,23 @@ func writeSrcFuncs(repo, outDir string) bool {
 		for _, d := range f.Decls {
 			if fd, ok := d.(*ast.FuncDecl); ok && fd.Recv == nil && fd.Body != nil {
 				decls[fd.Name.Name] = fd
+			}
+		}
+	}
+	for _, f := range files {
+		for _, d := range f.Decls {
+			if gd, ok := d.(*ast.GenDecl); ok && gd.Tok == token.VAR {
+				for _, sp := range gd.Specs {
+					if vs, ok := sp.(*ast.ValueSpec); ok {
+						for i, n := range vs.Names {
+							if i < len(vs.Values) {
+								if ce, ok := vs.Values[i].(*ast.CallExpr); ok {
+									grCombVars[n.Name] = ce
+								}
+							}
+						}
+					}
+				}
 			}
 		}
 	}
@@ -1494,7 +1539,7 @@ func writeSrcFuncs(repo, outDir string) bool {
 	}
 	var sb strings.Builder
 	sb.WriteString("(* GENERATED by verifh gen from /repo/internal/magic/*.go - the offset-computing detectors as functions in the\n   res monad (translator harness/gores.go, prelude Model/GoRes.v). Do not edit. *)\n")
-	sb.WriteString("From Verif Require Import Base.Bytes Model.GoLite Model.GoRes.\nLocal Open Scope string_scope.\nLocal Open Scope Z_scope.\n\n")
+	sb.WriteString("From Verif Require Import Base.Bytes Model.GoLite Model.GoRes Model.Text Gen.Tables.\nLocal Open Scope string_scope.\nLocal Open Scope Z_scope.\n\n")
 	gl := map[string]bool{}
 	for _, n := range order {
 		for _, d := range deps[n] {
